@@ -45,11 +45,7 @@ type decFacts struct {
 	runResetsAttempt     bool   // (*reader).run: `attempt = 0` and `offset = start` after a successful initialize
 	runErrcountInc       bool   // … `errcount++` is the last statement of readLoop's body
 	loopBranches         string // per error class of readLoop's switch: what the clause does (canonical words)
-	v1Loop               string // (*messageSetReader).readMessageV1: its body, error plumbing and debug output removed
-	msrMarkRead          string // … markRead
-	msrUnwind            string // … unwindStack
-	msrReadMessage       string // … readMessage
-	byteFuncs            string // read.go peekRead / readVarInt / readNewBytes, discard.go discardN, message_reader.go runFunc / readMessageHeader / readMessageV2
+	decoderText          string // (*messageSetReader).readMessage and everything it reaches in message_reader.go / read.go / discard.go (closure)
 }
 
 // decExtractor carries the file set that the renderer needs and the names declared in the function being read.
@@ -428,21 +424,6 @@ func extractDecoder(repo, root string) error {
 	d.header(readHeader, &facts)
 	d.skipLoop(msrReadMessage, &facts)
 	d.messageV2(readMessageV2, &facts)
-	facts.v1Loop = "?"
-	if readMessageV1 := decFunc(mf, "messageSetReader", "readMessageV1"); readMessageV1 != nil {
-		nz.normalise(readMessageV1)
-		facts.v1Loop = d.skeleton(readMessageV1)
-	}
-	facts.msrMarkRead, facts.msrUnwind = "?", "?"
-	if fd := decFunc(mf, "messageSetReader", "markRead"); fd != nil {
-		nz.normalise(fd)
-		facts.msrMarkRead = d.skeleton(fd)
-	}
-	if fd := decFunc(mf, "messageSetReader", "unwindStack"); fd != nil {
-		nz.normalise(fd)
-		facts.msrUnwind = d.skeleton(fd)
-	}
-
 	// ---- batch.go
 	bf, err := parse("batch.go")
 	if err != nil {
@@ -520,32 +501,14 @@ func extractDecoder(repo, root string) error {
 		}
 	})
 
-	// last: the skeleton rewrites the function it renders
-	facts.msrReadMessage = d.skeleton(msrReadMessage)
-	var bf2 []string
-	addSk := func(f *ast.File, recv, name string) {
-		if fd := decFunc(f, recv, name); fd != nil {
-			nz.normalise(fd)
-			bf2 = append(bf2, name+" "+d.skeleton(fd))
-		} else {
-			bf2 = append(bf2, name+" ?")
+	// the text the statement-level models follow: everything (*messageSetReader).readMessage reaches in
+	// message_reader.go, read.go and discard.go (parsed a second time by the normaliser: rendering rewrites the trees)
+	facts.decoderText = "?"
+	for _, c := range nz.all["readMessage"] {
+		if decRecvType(c) == "messageSetReader" {
+			facts.decoderText = d.closure(c, map[string]bool{"message_reader.go": true, "read.go": true, "discard.go": true})
 		}
 	}
-	if rdf, err := parse("read.go"); err == nil {
-		addSk(rdf, "", "peekRead")
-		addSk(rdf, "", "readVarInt")
-		addSk(rdf, "", "readNewBytes")
-		addSk(rdf, "", "readBytesWith")
-		addSk(rdf, "", "readArrayLen")
-	}
-	if dcf, err := parse("discard.go"); err == nil {
-		addSk(dcf, "", "discardN")
-		addSk(dcf, "", "discardBytes")
-	}
-	addSk(mf, "messageSetReader", "runFunc")
-	addSk(mf, "messageSetReader", "readMessageHeader")
-	addSk(mf, "messageSetReader", "readMessageV2")
-	facts.byteFuncs = strings.Join(bf2, " ;; ")
 
 	return os.WriteFile(filepath.Join(root, "lean/KafkaVerif/Gen/DecoderFacts.lean"), []byte(facts.lean()), 0o644)
 }
@@ -1041,10 +1004,12 @@ func (d *decExtractor) readerLoop(f *ast.File, run, initialize *ast.FuncDecl, fa
 }
 
 // skeleton renders the body of a function with what the statement-level model does not follow removed:
-// `if <recv>.debug { … }` statements, value-less `var` declarations, the bodies of function literals, and the error plumbing
+// `if <recv>.debug { … }` statements, value-less `var` declarations and the error plumbing
 // (`if err = f(); err != nil { return }` becomes `must(f())`).  Everything else — loop conditions, the order of the
 // calls, assignments, continue / return — is kept, alpha-normalised.
-func (d *decExtractor) skeleton(fd *ast.FuncDecl) string {
+func (d *decExtractor) skeleton(fd *ast.FuncDecl) string { return d.skeletonWith(fd, nil) }
+
+func (d *decExtractor) skeletonWith(fd *ast.FuncDecl, before func(*ast.FuncDecl)) string {
 	d.enter(fd)
 	var strip func(l []ast.Stmt) []ast.Stmt
 	strip = func(l []ast.Stmt) []ast.Stmt {
@@ -1089,14 +1054,106 @@ func (d *decExtractor) skeleton(fd *ast.FuncDecl) string {
 		return out
 	}
 	decRewriteLists(fd.Body, strip)
-	ast.Inspect(fd.Body, func(n ast.Node) bool {
-		if fl, ok := n.(*ast.FuncLit); ok {
-			fl.Body = &ast.BlockStmt{}
-		}
-		return true
-	})
+	if before != nil {
+		before(fd)
+	}
 	decClearPos(reflect.ValueOf(fd.Body))
 	return d.render(fd.Body)
+}
+
+// decRecvType is the receiver type name of a method ("" for a function).
+func decRecvType(fd *ast.FuncDecl) string {
+	if fd.Recv == nil || len(fd.Recv.List) != 1 {
+		return ""
+	}
+	t := fd.Recv.List[0].Type
+	if s, ok := t.(*ast.StarExpr); ok {
+		t = s.X
+	}
+	if id, ok := t.(*ast.Ident); ok {
+		return id.Name
+	}
+	return ""
+}
+
+// closure renders a function and, after it, every function of the given files it reaches, each once.  The names of
+// those functions are treated like the names of locals: in the text they are `$f1`, `$f2`, … in order of first
+// occurrence, so that renaming a function or method (and all its call sites) changes nothing, while a change in any of
+// the bodies does.  `log` calls are left alone (debug output).
+func (d *decExtractor) closure(root *ast.FuncDecl, files map[string]bool) string {
+	nz := d.nz
+	id := map[*ast.FuncDecl]int{}
+	var order []*ast.FuncDecl
+	resolve := func(cur *ast.FuncDecl, call *ast.CallExpr) *ast.FuncDecl {
+		var cands []*ast.FuncDecl
+		switch f := call.Fun.(type) {
+		case *ast.Ident:
+			for _, c := range nz.all[f.Name] {
+				if c.Recv == nil {
+					cands = append(cands, c)
+				}
+			}
+		case *ast.SelectorExpr:
+			var meths []*ast.FuncDecl
+			for _, c := range nz.all[f.Sel.Name] {
+				if c.Recv != nil {
+					meths = append(meths, c)
+				}
+			}
+			if x, ok := f.X.(*ast.Ident); ok && x.Name == decRecvIdent(cur) && decRecvType(cur) != "" {
+				for _, c := range meths {
+					if decRecvType(c) == decRecvType(cur) {
+						cands = append(cands, c)
+					}
+				}
+			} else if len(meths) == 1 {
+				cands = meths
+			}
+		}
+		if len(cands) != 1 || cands[0].Name.Name == "log" || cands[0] == root {
+			return nil
+		}
+		if !files[filepath.Base(d.fset.Position(cands[0].Pos()).Filename)] {
+			return nil
+		}
+		return cands[0]
+	}
+	rename := func(cur *ast.FuncDecl) {
+		ast.Inspect(cur.Body, func(n ast.Node) bool {
+			call, ok := n.(*ast.CallExpr)
+			if !ok {
+				return true
+			}
+			t := resolve(cur, call)
+			if t == nil {
+				return true
+			}
+			k, seen := id[t]
+			if !seen {
+				k = len(order) + 1
+				id[t] = k
+				order = append(order, t)
+			}
+			name := "$f" + strconv.Itoa(k)
+			switch f := call.Fun.(type) {
+			case *ast.Ident:
+				call.Fun = ast.NewIdent(name)
+			case *ast.SelectorExpr:
+				call.Fun = &ast.SelectorExpr{X: f.X, Sel: ast.NewIdent(name)}
+			}
+			return true
+		})
+	}
+	// positions are needed by resolve (file of a declaration): take them before the skeleton clears them
+	one := func(fd *ast.FuncDecl) string {
+		nz.normalise(fd)
+		return d.skeletonWith(fd, rename)
+	}
+	parts := []string{root.Name.Name + " " + one(root)}
+	for i := 0; i < len(order) && i < 80; i++ {
+		parts = append(parts, "$f"+strconv.Itoa(i+1)+" "+one(order[i]))
+	}
+	return strings.Join(parts, " ;; ")
 }
 
 // decParamName is the name of the i-th parameter of a function ("" if there is none).
@@ -1156,8 +1213,7 @@ func (f *decFacts) lean() string {
 		"jumpGuard : String", "skipBelow : String", "nextOffsetPlus : Int", "readerNextOffsetPlus : Int",
 		"emptyWhenHwmEqOffset : Bool", "closeStoresOffset : Bool", "oorSeeksConn : Bool",
 		"firstOffsetConst : Int", "lastOffsetConst : Int", "initResolve : String", "initSeeksResolved : Bool",
-		"runResetsAttempt : Bool", "runErrcountInc : Bool", "loopBranches : String", "v1Loop : String",
-		"msrMarkRead : String", "msrUnwind : String", "msrReadMessage : String", "byteFuncs : String",
+		"runResetsAttempt : Bool", "runErrcountInc : Bool", "loopBranches : String", "decoderText : String",
 	} {
 		b.WriteString("  " + fld + "\n")
 	}
@@ -1188,11 +1244,7 @@ func (f *decFacts) lean() string {
 		"runResetsAttempt := " + strconv.FormatBool(f.runResetsAttempt),
 		"runErrcountInc := " + strconv.FormatBool(f.runErrcountInc),
 		"loopBranches := " + decLeanString(f.loopBranches),
-		"v1Loop := " + decLeanString(f.v1Loop),
-		"msrMarkRead := " + decLeanString(f.msrMarkRead),
-		"msrUnwind := " + decLeanString(f.msrUnwind),
-		"msrReadMessage := " + decLeanString(f.msrReadMessage),
-		"byteFuncs := " + decLeanString(f.byteFuncs),
+		"decoderText := " + decLeanString(f.decoderText),
 	}
 	b.WriteString("  { " + strings.Join(vals, ",\n    ") + " }\n\n")
 	b.WriteString("end KV.Gen\n")
